@@ -70,7 +70,9 @@ def number(events):
 def times_rows():
     rows = []
     for named in (True, False):
-        for zero_test in (True, False):
+      for c_none in (True, False):
+        for c_zero in (True, False):
+            zero_test = c_none or c_zero          # no zero test only for a constant count that is not 0
             for jk in ("PredecNeZero", "PredecGtZero"):
                 if named:
                     var = "STMT.kind.clobber.Some.0"
@@ -86,7 +88,8 @@ def times_rows():
                     evs.append(condgoto(IF, "Expr::BinOp{0: %s, 1: BinOpKind::Eq, 2: 0}" % var, "<@times_zero#:Z>"))
                 evs += [label("<@loop#:L>"), body("STMT.kind.block"), condgoto(IF, cond, "<@loop#:L>"), label("<@times_zero#:Z>")] + post
                 rows.append(({"KIND": "Times", "is_none(STMT.kind.clobber)": not named,
-                              "as_const_int(STMT.kind.count) is None|Some(0)": zero_test,
+                              "is_none(as_const_int(STMT.kind.count))": c_none,
+                              "(as_const_int(STMT.kind.count).Some.0 == 0)": c_zero,
                               "match self.preferred_count_jmp": jk}, number(evs)))
     return rows
 
@@ -148,8 +151,9 @@ def run(db, tier):
     for g in db.fns.values():
         if g.id.startswith(DES) or g.id.startswith(DB_ + "Desugarer"):
             rep.fn(g)
-    cfg = S.Config(db, fid, inline_prefixes=(DB_ + "Desugarer::",), sinks=("self.out",),
+    cfg = S.Config(db, fid, inline_prefixes=(DB_,), sinks=("self.out",),
                    fresh_calls=("GensymContext::gensym",), recurse_to=(fid,))
+    cfg.no_inline = ("get_loop_id", "Visitor", "insert_scope_ends", "convert_continue_and_break", "::run")
     ev = S.Evaluator(cfg)
     S.set_aliases([])
     res = ev.run_fn(fn)
